@@ -109,6 +109,10 @@ public:
   /// send-boundary closeSent recheck contract). Virtual for testability.
   virtual void sendPing(SessionId sid, const std::vector<std::uint8_t>& payload = {})
   {
+    if (payload.size() > 125)
+    {
+      return; // drop: not a valid control frame (RFC 6455 5.5), the peer would fail the connection
+    }
     std::lock_guard<std::mutex> lock(_wsMutex);
     auto it = _sessions.find(sid);
     if (it == _sessions.end() || it->second.closeSent)
